@@ -141,8 +141,12 @@ class Presentation:
     units (heavy rain inside a gap tempts a storm to run across it)."""
 
     def __init__(self, dt=1800, e0=None, s_real=4.0, j_real=8.0, S=4, J=4, gap=1, gap_rain=5,
-                 base=96.0, zone="UTC", gap_jump=9):
+                 base=96.0, zone="UTC", gap_jump=9, sub=1):
         self.dt, self.S, self.J = dt, S, J
+        # sub > 1: the level file is sampled `sub` times per grid step; readings between grid instants lie on
+        # the chord, and the readings next to a missing grid instant are present (the hole is then no longer
+        # than a grid step, yet it is a gap in the level record: Load.tla, Q < P)
+        self.sub = sub
         self.e0 = epoch_of(2013, 3, 1) if e0 is None else e0
         self.s_real, self.j_real = s_real, j_real
         self.gap, self.gap_rain, self.base, self.zone, self.gap_jump = gap, gap_rain, base, zone, gap_jump
@@ -155,7 +159,7 @@ class Presentation:
 
     def describe(self):
         return {k: getattr(self, k) for k in
-                ("dt", "e0", "s_real", "j_real", "S", "J", "gap", "gap_rain", "base", "zone", "gap_jump")}
+                ("dt", "e0", "s_real", "j_real", "S", "J", "gap", "gap_rain", "base", "zone", "gap_jump", "sub")}
 
     def layout(self, rec):
         """absolute sample index of each stretch's first sample"""
@@ -187,11 +191,29 @@ class Presentation:
                 lev = lev + d * self.inc_scale
                 level_rows.append((t(p + k + 1), lev))
             lev = lev + self.gap_jump * self.inc_scale   # level moves a lot during the gap
+        if self.sub > 1:
+            level_rows = self._subsample(level_rows)
         rain_rows = [(t(i), rain[i]) for i in range(total)]
         # a little margin of rain / ET rows outside the level span
         rain_rows = [(t(-1), 0.0)] + rain_rows + [(t(total), 0.0)]
         et_rows = [(t(i), self.et_of(i)) for i in range(-1, total + 2)]
         return rain_rows, et_rows, level_rows
+
+    def _subsample(self, rows):
+        """readings every dt/sub: on the chord between adjacent grid readings; around a hole, every
+        off-grid reading is present (so a hole of one grid instant is 2 dt/sub <= dt long)"""
+        h = self.dt // self.sub
+        assert h * self.sub == self.dt
+        out = []
+        for (ta, za), (tb, zb) in zip(rows, rows[1:]):
+            out.append((ta, za))
+            if tb - ta == self.dt:
+                out += [(ta + k * h, za + (zb - za) * k / self.sub) for k in range(1, self.sub)]
+            else:
+                out += [(ta + k * h, za) for k in range(1, self.sub)]
+                out += [(tb - k * h, zb) for k in range(self.sub - 1, 0, -1)]
+        out.append(rows[-1])
+        return out
 
     def locate(self, rec, epoch):
         """epoch -> (stretch number k (0-based), 1-based index within it; may be m+1)"""
